@@ -282,10 +282,13 @@ impl HEntity {
     pub fn header_map(&self) -> HeaderMap {
         let mut h = HeaderMap::new();
         for (k, v) in &self.headers {
-            h.append(
-                HeaderName::from_bytes(k.as_bytes()).unwrap(),
-                HeaderValue::from_bytes(v).unwrap(),
-            );
+            let mut value = HeaderValue::from_bytes(v).unwrap();
+            // (`HeaderValue`'s "sensitive" flag — a hint for HPACK and for `Debug` — on some of
+            // them: a flagged value is as much one of the entity's headers as any other)
+            if k == "set-cookie" || k == "x-ent-b" || k == "content-disposition" {
+                value.set_sensitive(true);
+            }
+            h.append(HeaderName::from_bytes(k.as_bytes()).unwrap(), value);
         }
         h
     }
@@ -364,11 +367,9 @@ impl http_serve::Entity for HEntity {
     }
     fn add_headers(&self, h: &mut HeaderMap) {
         self.log.lock().unwrap().push(Call::AddHeaders);
-        for (k, v) in &self.headers {
-            h.append(
-                HeaderName::from_bytes(k.as_bytes()).unwrap(),
-                HeaderValue::from_bytes(v).unwrap(),
-            );
+        // (through `header_map`, so that the "sensitive" flags are the same)
+        for (k, v) in self.header_map().iter() {
+            h.append(k.clone(), v.clone());
         }
         if self.panic_at == 1 {
             panic!("entity panics in add_headers");
@@ -412,7 +413,65 @@ impl Wake for HWaker {
     }
 }
 
+/// Which kind of waker `mk_waker` hands out for the current case: `false` = one allocation per
+/// waker id (wakers differ in their data pointer, share a vtable), `true` = all wakers of a wake
+/// log share ONE data pointer and differ in their vtable (as two `Waker`s of different types
+/// built over the same task state do). `will_wake` tells both kinds apart; the data pointer alone
+/// does not. Chosen with the drop mode, by `choose_drop_mode`.
+pub static SHARED_DATA_WAKERS: std::sync::atomic::AtomicBool = std::sync::atomic::AtomicBool::new(false);
+
+mod raw_wakers {
+    use super::*;
+    use std::task::{RawWaker, RawWakerVTable};
+
+    type Log = Mutex<Vec<u64>>;
+
+    unsafe fn clone<const ID: u64>(p: *const ()) -> RawWaker {
+        Arc::increment_strong_count(p as *const Log);
+        RawWaker::new(p, vtable::<ID>())
+    }
+    unsafe fn wake<const ID: u64>(p: *const ()) {
+        wake_by_ref::<ID>(p);
+        drop_raw::<ID>(p);
+    }
+    unsafe fn wake_by_ref<const ID: u64>(p: *const ()) {
+        crate::sched::on_wake(ID);
+        (*(p as *const Log)).lock().unwrap().push(ID);
+    }
+    unsafe fn drop_raw<const ID: u64>(p: *const ()) {
+        Arc::decrement_strong_count(p as *const Log);
+    }
+    fn vtable<const ID: u64>() -> &'static RawWakerVTable {
+        struct V<const ID: u64>;
+        impl<const ID: u64> V<ID> {
+            const T: RawWakerVTable = RawWakerVTable::new(clone::<ID>, wake::<ID>, wake_by_ref::<ID>, drop_raw::<ID>);
+        }
+        &V::<ID>::T
+    }
+    /// A waker for `id` (1..=8) whose data pointer is the wake log itself.
+    pub fn make(id: u64, log: &Arc<Log>) -> Option<Waker> {
+        let vt = match id {
+            1 => vtable::<1>(),
+            2 => vtable::<2>(),
+            3 => vtable::<3>(),
+            4 => vtable::<4>(),
+            5 => vtable::<5>(),
+            6 => vtable::<6>(),
+            7 => vtable::<7>(),
+            8 => vtable::<8>(),
+            _ => return None,
+        };
+        let p = Arc::into_raw(log.clone()) as *const ();
+        Some(unsafe { Waker::from_raw(RawWaker::new(p, vt)) })
+    }
+}
+
 pub fn mk_waker(id: u64, log: &Arc<Mutex<Vec<u64>>>) -> Waker {
+    if SHARED_DATA_WAKERS.load(Ordering::SeqCst) {
+        if let Some(w) = raw_wakers::make(id, log) {
+            return w;
+        }
+    }
     Waker::from(Arc::new(HWaker {
         id,
         log: log.clone(),
@@ -953,6 +1012,7 @@ pub fn choose_drop_mode() {
     let t = TICK.fetch_add(1, std::sync::atomic::Ordering::Relaxed);
     let h = t.wrapping_mul(0x9E37_79B9_7F4A_7C15) >> 33;
     UNWIND_DROPS.store(h % 4 == 0, std::sync::atomic::Ordering::SeqCst);
+    SHARED_DATA_WAKERS.store((h >> 3) % 3 == 0, std::sync::atomic::Ordering::SeqCst);
 }
 
 /// Drops `v` in the current drop mode; `true` if the drop itself panicked (with an ordinary drop)
